@@ -315,6 +315,10 @@ class ModelWorld(BaseWorld):
         self.lg = o.value
         o = call(LanguageClassesFactory, self.lg)
         if o.raised:
+            if self.prop == 'C06':
+                raise Violation('C06.classes', f'LanguageClassesFactory raised {o.exc!r} for a '
+                                               f'well-formed language ({len(self.L.order)} asset types, '
+                                               f'{len(self.L.assocs)} associations)')
             raise SetupRejected('factory:' + o.exc_name())
         self.factory = o.value
         self.models = []
@@ -372,6 +376,22 @@ class ModelWorld(BaseWorld):
     # ---------------------------------------------------------------- C06.classes
     def _check_classes(self):
         ns = self.factory.ns
+        # "exactly the language's asset types ... and its association types": nothing from
+        # the vocabulary of *other* languages (same name pools) may be exposed
+        from . import lang as _lang
+        import re
+        mine = set(self.L.order) | {a.name for a in self.L.assocs} | {a.cls for a in self.L.assocs}
+        pool = set(_lang.TYPE_NAMES) | set(_lang.ASSOC_NAMES) | {'Server', 'Base', 'Mid', 'Leaf',
+                                                                 'Leaf2', 'Other', 'Peer'}
+        sub = re.compile(r'^(%s)_(\w+)_(\w+)$' % '|'.join(sorted(_lang.ASSOC_NAMES) + ['Peer']))
+        for name in dir(ns):
+            if name.startswith('_') or name in mine:
+                continue
+            if name in pool or sub.match(name):
+                raise Violation('C06.classes', f'the generated classes expose {name!r}, which this '
+                                               f'language does not define (asset types '
+                                               f'{self.L.order}, associations '
+                                               f'{sorted(a.cls for a in self.L.assocs)})')
         for t in self.L.order:
             self.count('oracle:C06.classes')
             cls = getattr(ns, t, None)
@@ -499,8 +519,14 @@ class ModelWorld(BaseWorld):
             self.fail(f'{P}.to_dict', f'after {where}: _to_dict() has an unexpected shape: {gd.exc!r}')
         ed = normalise_ref_to_dict(ref.to_dict_view())
         if gd.value != ed:
-            self.fail(f'{P}.to_dict', f'after {where}: _to_dict() differs from the reference\n'
-                      + _obs_diff(ed, gd.value))
+            if 'C05' not in self.armed:
+                # the model itself equals the reference (checked above), only its
+                # serialised view is off: the reference stays valid, the run goes on and
+                # the property at hand (e.g. C07: what gets saved) judges the consequences
+                self.count('soft:C05.to_dict')
+            else:
+                self.fail(f'{P}.to_dict', f'after {where}: _to_dict() differs from the reference\n'
+                          + _obs_diff(ed, gd.value))
         if 'C06' in self.armed:
             self.check_c06_invariant(mi, where)
 
@@ -602,6 +628,8 @@ class ModelWorld(BaseWorld):
             name = rng.choice(live_names)             # duplicate: renamed or refused
         else:
             name = self._names(rng)
+        if live_ids and rng.random() < 0.05:
+            name = str(rng.choice(live_ids))          # a name that reads like another asset's id
         if self.cfg.get('tiny'):
             aid = rng.choice([None, None, 0, 1, 2, -1])
             name = rng.choice([None, 'a', 'a', 'b'])
